@@ -74,6 +74,9 @@ def run(run, tier, seed, replay=None):
     # C01E: the pipeline model (coq Model/C01EElab.v) against the implementation on the same designs
     from . import c01e
     c01e.run_tie(run, tier, seed, designs, outs)
+    # C01F: references nested in slices / concatenations (coq Model/C01FElab.v), acyclic and in loops
+    from . import c01f
+    c01f.run_tie(run, tier, seed)
 
 
 def corpus():
